@@ -79,6 +79,123 @@ def alg_cases64(rng, tier):
     return cases
 
 
+# ----------------------------------------------------------------------------------------------------------------
+# double weights at the edge of the exact domain (seeded change C02/r7m2: a "rounding tolerant" comparison of cycle weights)
+# ----------------------------------------------------------------------------------------------------------------
+EXTREME_SCALES = [-1000, -300, -70, -20, 40, 300, 900]
+
+
+def small_tight(rng):
+    """a small dense / tie-heavy graph: n <= 7, m <= 12, random edge order and orientation (unit weights)"""
+    r = rng.random()
+    if r < 0.08: g = gen.complete(4)
+    elif r < 0.16: g = gen.wheel(rng.randint(5, 7))
+    elif r < 0.22: g = gen.bipartite(3, 3)
+    elif r < 0.28: g = gen.bipartite(2, rng.randint(3, 5))
+    elif r < 0.34: g = gen.theta(rng.randint(0, 1), rng.randint(1, 2), rng.randint(1, 2))
+    else:
+        n = rng.randint(4, 7)
+        pairs = [(u, v) for u in range(n) for v in range(u + 1, n)]; rng.shuffle(pairs)
+        m = rng.randint(min(n + 1, len(pairs)), min(len(pairs), rng.choice([9, 10, 12])))
+        g = (n, [(u, v, 1) for (u, v) in pairs[:m]])
+    return gen.relabel(rng, g[0], g[1])
+
+
+def mantissa_weigh(rng, g):
+    """integer weights that fill the mantissa of a double: W - r (or 2^b + r) with W ~ 2^53 / ((m+4)*m) and r in 0..3, so that every sum the
+    algorithms can form is an integer below 2^53 ((m+4) * sum(w) < 2^53: inside the exact domain) while distinct cycle weights differ by a few units
+    in 2^48 or so (relative 1e-14)"""
+    n, es = g; m = max(1, len(es))
+    W = (2 ** 53 - 1) // ((m + 4) * m)
+    r = rng.random()
+    if r < 0.45: base, sgn, style = W, -1, "top"                                             # W - r
+    elif r < 0.75: base, sgn, style = 1 << ((W - 3).bit_length() - 1), 1, "pow2"               # 2^b + r
+    else: base, sgn, style = rng.randint(W // 2, W - 3), rng.choice([-1, 1]), "mid"
+    rmax = rng.choice([1, 2, 3, 3])
+    few = rng.random() < 0.3                                                                  # most edges r = 0, a few heavier / lighter ones
+    ws = []
+    for _ in es:
+        rr = (rng.randint(1, rmax) if rng.random() < 0.3 else 0) if few else rng.randint(0, rmax)
+        ws.append(min(W, base + sgn * rr))
+    assert (m + 4) * sum(ws) < 2 ** 53 and min(ws) > 0
+    return (n, [(u, v, w) for (u, v, _), w in zip(es, ws)]), "mantissa-" + style
+
+
+def alg_cases_fp(rng, tier):
+    """(a) mantissa-heavy double weights on small dense / tie-heavy graphs, (b) ordinary weights under extreme power-of-two scales (values stay finite
+    and normal: integer weights < 2^47 times 2^scale, |scale| <= 1000) - where a comparison of cycle weights "up to rounding noise" (relative or
+    absolute tolerance) stops being the exact comparison although every sum is exactly representable"""
+    cases = []
+    for i in range(330 if tier == "quick" else 3000):
+        g, style = mantissa_weigh(rng, small_tight(rng) if rng.random() < 0.8 else dense_small(rng))
+        gt = gen.graph_tokens(g)
+        sc = rng.choice([0, 0, 0, -3, 5, -60, 200])
+        for alg in (ALGS if i % 3 else ["signed"]):
+            cases.append(("A %s D %d %s" % (alg, sc, gt), g, style))
+    for i in range(200 if tier == "quick" else 1500):
+        g, style = gen_graph(rng, 10 if tier == "quick" else 16) if rng.random() < 0.6 else (dense_small(rng), "dense-small")
+        gt = gen.graph_tokens(g)
+        sc = rng.choice(EXTREME_SCALES)
+        for alg in ALGS:
+            cases.append(("A %s D %d %s" % (alg, sc, gt), g, style + "@2^%d" % sc))
+    return cases
+
+
+# ----------------------------------------------------------------------------------------------------------------
+# graphs with LONG cycles and few of them (seeded change C01/r7m2: a shortcut in SpVecGF2 * std::set taken only when the set is 32 times longer
+# than the sparse vector)
+# ----------------------------------------------------------------------------------------------------------------
+def long_cycle_graph(rng):
+    """n ~ 50..130, cycle space dimension 2..4, every basis cycle with 33 edges or more: rings with heavy chords, theta graphs with three long
+    paths, ladders with few rungs, long cycles sharing a long path; random relabelling and edge order (which edges the spanning forest leaves out decides
+    what the witnesses look like)"""
+    r = rng.random()
+    if r < 0.30:
+        n = rng.randint(48, 64); es = [(i, (i + 1) % n, rng.choice([1, 1, 2, 3])) for i in range(n)]
+        chords = set()
+        for _ in range(rng.choice([1, 1, 2])):
+            a = rng.randrange(n); b = (a + rng.randint(n // 3, n // 2)) % n
+            if a != b and (min(a, b), max(a, b)) not in chords:
+                chords.add((min(a, b), max(a, b))); es.append((a, b, rng.choice([n, 2 * n, 3 * n + 1, 100 * n])))     # heavy: the ring itself stays in the basis
+        style = "ring+heavy-chords"
+    elif r < 0.62:
+        a, b, c = rng.choice([(17, 19, 29), (39, 40, 41), (16, 33, 40), (20, 20, 20), (33, 34, 35), (18, 30, 50), (25, 25, 40)])
+        n, es = gen.theta(a, b, c); style = "theta-long"
+        wm = rng.choice([1, 1, 2, 4])
+        es = [(u, v, rng.randint(1, wm)) for (u, v, _) in es]
+    elif r < 0.82:
+        L = rng.randint(24, 50); rungs = sorted(set([0, L - 1] + [rng.randrange(L) for _ in range(rng.choice([0, 1, 1, 2]))]))
+        wm = rng.choice([1, 2, 3])
+        es = [(i, i + 1, rng.randint(1, wm)) for i in range(L - 1)] + [(L + i, L + i + 1, rng.randint(1, wm)) for i in range(L - 1)]
+        es += [(i, L + i, rng.choice([1, 5, L])) for i in rungs]
+        n = 2 * L; style = "ladder-few-rungs"
+    else:
+        # two or three long cycles through one common long path
+        P = rng.randint(20, 36); n = P + 1; es = [(i, i + 1, 1) for i in range(P)]
+        for _ in range(rng.choice([2, 2, 3])):
+            q = rng.randint(14, 30); prev = 0
+            for _ in range(q):
+                es.append((prev, n, rng.choice([1, 1, 2]))); prev = n; n += 1
+            es.append((prev, P, 1))
+        style = "long-cycles-common-path"
+    if rng.random() < 0.25:                                  # a pendant path / an isolated vertex: bridges and components
+        es.append((rng.randrange(n), n, 7)); n += 1
+        if rng.random() < 0.5: n += 1
+    g = gen.relabel(rng, n, es)
+    return g, style
+
+
+def long_cycle_cases(rng, tier):
+    cases = []
+    for i in range(42 if tier == "quick" else 400):
+        g, style = long_cycle_graph(rng)
+        gt = gen.graph_tokens(g)
+        for alg in ALGS:
+            ty = "I" if (i % 3 == ALGS.index(alg)) else "D"
+            cases.append(("A %s %s %d %s" % (alg, ty, 0 if ty == "I" else rng.choice([0, 0, -3, 5]), gt), g, style))
+    return cases
+
+
 def small_exhaustive_cases(maxv=5):
     """all simple graphs on <= maxv labelled vertices with weights from {1,2} varied by edge position (thorough)"""
     out = []
@@ -94,13 +211,21 @@ def small_exhaustive_cases(maxv=5):
     return out
 
 
-def bidir_cases(rng, tier, long64=False):
-    """direct search calls; long64: the long long instantiation on 64-bit weights above 2^53 (B L ...)"""
-    nb = (5000 if tier == "quick" else 40000) if not long64 else (800 if tier == "quick" else 6000)
+def bidir_cases(rng, tier, long64=False, fp=False):
+    """direct search calls; long64: the long long instantiation on 64-bit weights above 2^53 (B L ...); fp: double weights at the edge of the exact
+    domain - mantissa-heavy weights (B D ...) and ordinary weights under extreme power-of-two scales (B D:<scale> ...), limits next to sums of a few edges"""
+    nb = (5000 if tier == "quick" else 40000) if not (long64 or fp) else (800 if tier == "quick" else 6000)
     maxn = 12 if tier == "quick" else 24
     cases = []
     while len(cases) < nb:
-        g, style = gen_graph64(rng, maxn) if long64 else gen_graph(rng, maxn)
+        fty = "D"
+        if fp and rng.random() < 0.6:
+            g, style = mantissa_weigh(rng, small_tight(rng) if rng.random() < 0.8 else dense_small(rng))
+            if rng.random() < 0.3: fty = "D:%d" % rng.choice([-3, 5, -60, 200])
+        elif fp:
+            g, style = gen_graph(rng, 10); fty = "D:%d" % rng.choice(EXTREME_SCALES)
+        else:
+            g, style = gen_graph64(rng, maxn) if long64 else gen_graph(rng, maxn)
         n, es = g
         if n < 2 or not es: continue
         m = len(es)
@@ -119,7 +244,9 @@ def bidir_cases(rng, tier, long64=False):
                 if s == t and spos == tpos: continue
             tot = sum(w for _, _, w in es)
             lim = "-" if rng.random() < 0.4 else str(rng.randint(1, max(2, tot // 2 + 2)))
-            ty = "L" if long64 else "D" if rng.random() < 0.7 or not gen.int_domain_ok(g) else "I"
+            if fp and lim != "-" and rng.random() < 0.8:      # a limit next to the weight of a few edges (where a found path is just inside / outside)
+                lim = str(max(1, sum(es[j][2] for j in rng.sample(range(m), min(m, rng.randint(1, 5)))) + rng.choice([-1, 0, 0, 1, 2])))
+            ty = fty if fp else "L" if long64 else "D" if rng.random() < 0.7 or not gen.int_domain_ok(g) else "I"
             cases.append("B %s %d %d %d %d %d %s %d %s %d %s %s" % (ty, uh, s, spos, t, tpos, lim, len(sg), " ".join(map(str, sg)),
                                                                  len(hd), " ".join(map(str, hd)), gen.graph_tokens(g)))
     return cases[:nb]
@@ -193,8 +320,17 @@ def run(c, tier, what):
     # the 64-bit integer instantiation (generated last: the double / int streams above are unchanged)
     acases += alg_cases64(c.rng, tier)
     bcases += bidir_cases(c.rng, tier, long64=True)
+    # double weights at the edge of the exact domain and graphs with long cycles (own generator streams: everything above is unchanged)
+    import random
+    acases += alg_cases_fp(random.Random(c.seed * 7919 + 71), tier)
+    bcases += bidir_cases(random.Random(c.seed * 7919 + 72), tier, fp=True)
+    acases += long_cycle_cases(random.Random(c.seed * 7919 + 73), tier)
     c.rule += ("; plus the same entry points and search calls instantiated with long long weights above 2^53 (2^53+r, 2^54+{0..3}, 2^54+permutation, 2^b+r up to "
-               "b = 60, heavy/light mixes; (m+4)*sum(w) < 2^63)")
+               "b = 60, heavy/light mixes; (m+4)*sum(w) < 2^63)"
+               "; plus double weights at the edge of the exact domain: mantissa-heavy integers W-r / 2^b+r with W ~ 2^53/((m+4)m), r in 0..3, on small dense and "
+               "tie-heavy graphs (n <= 8) and ordinary weights scaled by 2^s, s in {-1000,-300,-70,-20,40,300,900} (entry points and direct search calls)"
+               "; plus sparse graphs with long cycles (n ~ 50..130, cycle space dimension 2..4, cycles of 33..100 edges: rings with heavy chords, long theta graphs, "
+               "ladders with few rungs, long cycles through a common path; relabelled)")
     lines = [a[0] for a in acases]
     io = lib.run_lines([exe], lines)
     # ---- the two non-default build configurations the project supports: same returned value and count, and a valid basis there too ----
@@ -255,7 +391,8 @@ def run(c, tier, what):
             if key not in opts: opts[key] = O.mcb(n, es)
             why = O.judge_weight(n, es, cycles, ret, opts[key]) if isinstance(ret, int) else "returned value %s is not an exact integer multiple of the weight unit" % ret
             if why: report("judge", i, "%s: %s" % (alg, why))
-        if refok and n <= (16 if tier == "quick" else 22) and m <= 45 and all(isinstance(x, int) for cy in cycles for x in cy):
+        # (the verified checker is run on the small cases and on sparse larger ones: long cycles, cycle space dimension <= 4, where it is still fast)
+        if refok and ((n <= (16 if tier == "quick" else 22) and m <= 45) or (n <= 70 and N <= 4)) and all(isinstance(x, int) for cy in cycles for x in cy):
             refq.append(i)
         if i in model_out and canon_alg(io[i]) != model_out[i].strip():
             bw = O.judge_basis(n, es, cycles) if what == "basis" else (O.judge_weight(n, es, cycles, ret) if isinstance(ret, int) else "non-integer weight")
